@@ -234,6 +234,7 @@ class Evaluator:
             self.funcs.update(funcs)
         self.steps = 0
         self.depth = 0
+        self.max_loop = 200
         self.max_steps = max_steps
 
     # -- expressions -------------------------------------------------------------------------
@@ -766,7 +767,7 @@ class Evaluator:
             n = 0
             while self.truth(self.eval(st.test, env)):
                 n += 1
-                if n > 200:
+                if n > self.max_loop:
                     raise Undecided("loop bound")
                 try:
                     self.block(st.body, env)
@@ -903,7 +904,7 @@ def _bound(base: Any, name: str) -> Callable[..., Any]:
 
 
 def _len(x: Any) -> int:
-    if isinstance(x, (list, tuple, str, dict, range)):
+    if isinstance(x, (list, tuple, str, dict, range, set, frozenset)):
         return len(x)
     raise Undecided("len of abstract value")
 
